@@ -366,6 +366,10 @@ let handle_cr lineno _line (r : reader) =
          && List.for_all (fun t -> List.mem (key t) held) missing
       then fail "tracker-never-created-penalty-confirmed-while-down" lineno case
              (Printf.sprintf "appointments-kept-without-tracker=%s" (String.concat "+" (List.map (fun t -> let (l, u) = key t in Printf.sprintf "%d.%d" l u) missing)))
+      else if same_as rf.final then
+        (* appointments and trackers are as in the uninterrupted run: only a subscription (balance, start, expiry or
+           the presence of a user) differs - the reload / slot accounting of C07 and C09 *)
+        fail k lineno case "final-users-differ-from-uninterrupted-run"
       else fail k lineno case "final-tables-differ-from-uninterrupted-run"
     end
     else if not sends_ok then fail k lineno case "a-submission-of-the-uninterrupted-run-is-missing"
